@@ -24,7 +24,7 @@ balances := `name:coll:debt,...`      misc := `net=..;ext=..;res=..;supply=..;..
 First generation (x/auction), one seized vault:
   dutch.v1.begin <env1> <rec1> <balances> <misc>
   dutch.v1.bid   who slice                <ok|err|validate|panic> <rec1> <balances> <misc>
-  dutch.v1.tick  now twaC actC twaD actD  <ok|panic> <rec1> <balances> <misc>
+  dutch.v1.tick  now twaC actC twaD actD esmOn snapshot  <ok|panic> <rec1> <balances> <misc>
 rec1 := `closed` | `out=..;in=..;price=..;init=..;endp=..;inp=..;start=..;end=..`   misc := `net=<n|none>;supply=..`
 First generation, liquidated borrow (x/auction dutch_lend.go):
   dutch.l1.begin <envL> <rec1> <balances> <misc>
@@ -42,7 +42,7 @@ open Comdex Comdex.Line Comdex.DutchV2
 def names : List (String × Acct) :=
   [("b1", .bidder 1), ("b2", .bidder 2), ("b3", .bidder 3), ("b4", .bidder 4), ("auction", .auction),
    ("collector", .collector), ("owner", .owner), ("keeper", .keeper), ("initiator", .initiator),
-   ("reserve", .reserve), ("vault", .vaultMod), ("pool", .pool), ("lendres", .lendres), ("poolin", .poolIn)]
+   ("reserve", .reserve), ("vault", .vaultMod), ("pool", .pool), ("lendres", .lendres), ("poolin", .poolIn), ("esm", .esm)]
 
 def acctOf (n : String) : Option Acct := (names.find? (·.1 = n)).map (·.2)
 def bidderNo (n : String) : Option Nat :=
@@ -379,7 +379,9 @@ def finish1 (v : V1St) (seq : String) (isBid : Bool) (okM : Bool) (outcome : Str
         let burned := b0.supply - o.supply
         let collIn := (bal1 o "collector").2 - (bal1 b0 "collector").2      -- net: penalty in minus shortfall cover out
         let proceeds := decide (realPaid = burned + collIn) && decide (burned + collIn + (v.e.target - realPaid) = v.e.target)
-        let ownerOk := decide ((bal1 o "owner").1 - (bal1 b0 "owner").1 = v.e.coll0 - realRecv)
+        -- the unsold collateral goes to the owner (bid close) or, in an emergency-shutdown wind-down, to the vault / ESM module
+        let dC (n : String) : Int := (bal1 o n).1 - (bal1 b0 n).1
+        let ownerOk := decide (dC "owner" + dC "vault" + dC "esm" = v.e.coll0 - realRecv)
         mon seq "close_distributes" (custody && proceeds && ownerOk)
     else []
   let v' := { v with prev := some o, realPaid := realPaid, realRecv := realRecv }
@@ -442,10 +444,11 @@ def handleV1 (v : V1St) (seq : String) (f : List String) : V1St × List String :
       let v1 := { v with s := match res with | .ok s' => s' | .error _ => v.s }
       finish1 v1 seq true okM o obs pm
     | _, _, _ => (v, [s!"BAD\t{seq}\tv1 bid"])
-  | ["dutch.v1.tick", now, twaC, actC, twaD, actD, o, r, b, m] =>
+  | ["dutch.v1.tick", now, twaC, actC, twaD, actD, esm, snap, o, r, b, m] =>
     match parseInt? now, parseInt? twaC, parseBool? actC, parseInt? twaD, parseBool? actD, parseObs1 r b m with
     | some now, some twaC, some actC, some twaD, some actD, some obs =>
-      let s' := DutchV1.step v.e v.s (.tick now twaC actC twaD actD)
+      let s' := if esm = "1" then DutchV1.step v.e v.s (.tickEsm now twaC actC twaD actD (snap = "1"))
+                else DutchV1.step v.e v.s (.tick now twaC actC twaD actD)
       let prevRec := v.prev.bind (·.auc)
       let pm := match obs.auc with
         | some cur => priceMons1 seq v.e prevRec cur now ++
